@@ -1,4 +1,5 @@
 import RSV.Props.C04
+import RSV.Props.C17leo
 import RSV.Props.Consts
 /-!
 # C04 umbrella — Leopard Encode
